@@ -93,7 +93,7 @@ fn to_item_enum(item: &DeriveInput, data: &DataEnum) -> ItemEnum {
 pub fn build_by_item_struct(attr: TokenStream, item: &mut ItemStruct) -> Result<TokenStream> {
     let mut kinds = HelperAttributeKinds::new(true);
     let result = build_by_item_struct_core(Some(attr), item, &mut kinds);
-    remove_attrs(&mut item.attrs, &kinds);
+    remove_root_attrs(&mut item.attrs, &kinds);
     for field in &mut item.fields {
         remove_attrs(&mut field.attrs, &kinds)
     }
@@ -137,7 +137,7 @@ fn build_by_item_struct_core(
 pub fn build_by_item_enum(attr: TokenStream, item: &mut ItemEnum) -> Result<TokenStream> {
     let mut kinds = HelperAttributeKinds::new(true);
     let result = build_by_item_enum_core(Some(attr), item, &mut kinds);
-    remove_attrs(&mut item.attrs, &kinds);
+    remove_root_attrs(&mut item.attrs, &kinds);
     for variant in &mut item.variants {
         remove_attrs(&mut variant.attrs, &kinds);
         for field in &mut variant.fields {
@@ -1096,7 +1096,12 @@ impl DeriveEntry {
         if let Some(attr) = attr {
             args_list.push(parse2(attr)?);
         }
-        args_list.extend(parse_derive_ex_attrs(attrs)?);
+        // Sibling attributes on the item itself may also be written with the crate path (`#[derive_ex::derive_ex(..)]`).
+        for attr in attrs {
+            if is_root_derive_ex_attr(attr) {
+                args_list.push(attr.parse_args()?);
+            }
+        }
         Self::from_args_list(&args_list)
     }
     fn from_args_list(args_list: &[Args]) -> Result<Vec<Self>> {
@@ -1537,6 +1542,18 @@ struct ArgsForCompareOp {
 
 fn remove_attrs(attrs: &mut Vec<Attribute>, kinds: &HelperAttributeKinds) {
     attrs.retain(|attr| !kinds.is_match(attr));
+}
+fn remove_root_attrs(attrs: &mut Vec<Attribute>, kinds: &HelperAttributeKinds) {
+    attrs.retain(|attr| !kinds.is_match(attr) && !is_root_derive_ex_attr(attr));
+}
+/// `#[derive_ex(..)]`, `#[derive_ex::derive_ex(..)]` or `#[::derive_ex::derive_ex(..)]` on the item itself.
+fn is_root_derive_ex_attr(attr: &Attribute) -> bool {
+    let p = attr.path();
+    (p.segments.len() == 1 || p.segments.len() == 2)
+        && p.segments
+            .iter()
+            .all(|s| s.ident == "derive_ex" && s.arguments.is_none())
+        && (p.leading_colon.is_none() || p.segments.len() == 2)
 }
 
 fn parse_derive_ex_attrs<T: Parse>(attrs: &[Attribute]) -> Result<Vec<T>> {
